@@ -609,6 +609,39 @@ pub fn run(out: &mut Out, rng: &mut Rng, thorough: bool) {
             }
         }
     }
+    // G. sibling sequences (history dependence).  The decoder must answer every packet on its own; a memo of
+    //    anything derived from (time stamp, address) — a key, a table choice — keyed on less than what it depends
+    //    on answers the SECOND of two related packets wrongly.  Base packet A, then A again between siblings:
+    //    one time-stamp bit flipped, one address bit flipped, and the pairs that leave the mixed word
+    //    (time >> 6) ^ (address << 8 & 0xffffff) of the key schedule unchanged (ts ^ e<<14, addr ^ e).
+    for _ in 0..(24 * k) {
+        let f = rnd_fields(rng);
+        let ts = rnd_ts(rng);
+        let r = [f.lat_e7 as f64 / 1e7, f.lon_e7 as f64 / 1e7];
+        let trailer = rng.bytes(2);
+        let mut sibs: Vec<(u32, u32)> = Vec::new();
+        for b in 0..32 {
+            sibs.push((ts ^ (1 << b), f.addr));
+        }
+        for b in 0..24 {
+            sibs.push((ts, f.addr ^ (1 << b)));
+        }
+        for b in 0..16 {
+            sibs.push((ts ^ (1u32 << (b + 14)), f.addr ^ (1 << b)));
+        }
+        for _ in 0..8 {
+            let e = rng.below(1 << 16) as u32;
+            sibs.push((ts ^ (e << 14), f.addr ^ e));
+        }
+        for (ts2, a2) in sibs {
+            let base = build(ts, &f, &trailer);
+            case(out, "sibling:base", ts, r, &base, Some(&f));
+            let f2 = Fields { addr: a2, ..f.clone() };
+            let m2 = build(ts2, &f2, &trailer);
+            case(out, "sibling:related", ts2, r, &m2, Some(&f2));
+        }
+    }
+
     out.notes.push(
         "oracle: reference key schedule + XXTEA coding part (6 rounds) + packet builder in uint32_t arithmetic, \
          independent of flarm.rs and of the Lean model"
